@@ -86,7 +86,7 @@ def partition(facts, res):
             tbf.link_parents(body)
             # the returned pair: (in-group list, out-of-group list)
             firsts, seconds = set(), set()
-            for r in walk(body):
+            for r in walk(body, into_lambdas=False):          # (a `return` inside a local lambda / predicate is not the builder's)
                 if r.get("k") != "ReturnStmt" or not kids(r):
                     continue
                 mp = [c for c in walk(r) if c.get("k") == "CallExpr" and tbf.callee_name(c) == "make_pair"]
